@@ -27,3 +27,10 @@ Theorem C18_same_under_every_header : forall (T : Type) (tcat : T -> cat) (recog
   import_token T tcat recog h1 s = import_token T tcat recog h2 s.
 Proof. exact import_same_structure. Qed.
 Print Assumptions C18_same_under_every_header.
+
+(* obligation regenerated from the source on every run: the code this property runs through keeps exactly the state the
+   model knows (no new attribute, class-level table, module-level binding or caching decorator), see proofs/State*Proofs.v *)
+From KV Require Import StateGen StateBase StateImportProofs.
+Theorem C18_state_as_modelled : state_import = modelled_state_import.
+Proof. exact state_import_as_modelled. Qed.
+Print Assumptions C18_state_as_modelled.
